@@ -10,7 +10,12 @@ EXTENDS Integers, Sequences, TLC, Json, FiniteSets
 CONSTANT MaxStmts
 \* a line with the raw counts Loop looks at: { } [ ] " and \"
 L(txt, lb, rb, lk, rk, q, eq) == [txt |-> txt, lb |-> lb, rb |-> rb, lk |-> lk, rk |-> rk, q |-> q, eq |-> eq]
+RECURSIVE Rep(_, _)
+Rep(str, n) == IF n = 0 THEN "" ELSE IF n % 2 = 0 THEN LET h == Rep(str, n \div 2) IN h \o h ELSE str \o Rep(str, n - 1)
+Long == Rep("abcdefghij", 500)          \* 5000 characters: longer than any line buffer
 Shapes == <<
+  [name |-> "longline",  lines |-> << L("write(\"" \o Long \o "\")", 0, 0, 0, 0, 2, 0) >>, out |-> Long, val |-> "nil"],
+  [name |-> "longexpr",  lines |-> << L("1" \o Rep(" + 1", 1500), 0, 0, 0, 0, 0, 0) >>, out |-> "", val |-> "1501"],
   [name |-> "plain",     lines |-> << L("write(\"A\")", 0, 0, 0, 0, 2, 0) >>, out |-> "A", val |-> "nil"],
   [name |-> "value",     lines |-> << L("1 + 2", 0, 0, 0, 0, 0, 0) >>, out |-> "", val |-> "3"],
   [name |-> "strLB",     lines |-> << L("write(\"{\")", 1, 0, 0, 0, 2, 0) >>, out |-> "{", val |-> "nil"],
